@@ -18,7 +18,7 @@ def edge_shapes(tier):
     r = A.rng(1)
     cases = []
     k = 0
-    for nsinks in (2, 3, 4, 5, 7):
+    for nsinks in (2, 3, 4, 5, 7, 12):
         for rep in range(2 if tier == "quick" else 12):
             names = ["b%d" % j for j in range(nsinks)]
             create = names[:]
